@@ -122,6 +122,12 @@ def _can_fall_off(body: list) -> bool:
         return False
     if isinstance(last, ast.If) and last.orelse:
         return _can_fall_off(last.body) or _can_fall_off(last.orelse)
+    if isinstance(last, ast.Try) and not last.finalbody:
+        normal = last.orelse if last.orelse else last.body
+        return _can_fall_off(normal) or any(_can_fall_off(h.body) for h in last.handlers)
+    if isinstance(last, ast.While) and isinstance(last.test, ast.Constant) and last.test.value and not last.orelse \
+            and not any(isinstance(x, ast.Break) for x in ast.walk(last)):
+        return False
     return True
 
 
@@ -211,6 +217,8 @@ def _bind(model, caller: FuncInfo, call: ast.Call, h: FuncInfo):
             new = p + tag if (p in caller_names and not (isinstance(v, ast.Name) and v.id == p)) else p
             if new != p:
                 renames[p] = new
+            if isinstance(v, ast.Name) and v.id == new:
+                continue  # `p = p`: the parameter keeps standing for the caller's variable of the same name
             prologue.append(ast.copy_location(ast.Assign(targets=[ast.Name(id=new, ctx=ast.Store())], value=copy.deepcopy(v), lineno=call.lineno), call))
     hparams = set(bound)
     for loc in assigned:
@@ -227,14 +235,42 @@ def _body_of(h: FuncInfo, subst, renames) -> list:
     return [tr.visit(st) for st in body]
 
 
-def _replace_returns(stmts: list, target: Optional[str], loc) -> list:
+def _tgt(target):
+    """A fresh Store-context copy of the assignment target (a name or a tuple of names)."""
+    if isinstance(target, str):
+        return ast.Name(id=target, ctx=ast.Store())
+    return copy.deepcopy(target)
+
+
+def _assign(target, value, loc) -> list:
+    """`target = value`; a tuple assigned to a tuple of names is split into one assignment per name
+    when no later value reads an earlier target (so the order does not matter); `x = x` is dropped."""
+    if isinstance(target, (ast.Tuple, ast.List)) and isinstance(value, (ast.Tuple, ast.List)) and len(target.elts) == len(value.elts) \
+            and all(isinstance(t, ast.Name) for t in target.elts) and not any(isinstance(v, ast.Starred) for v in value.elts):
+        names = [t.id for t in target.elts]
+        safe = True
+        for i, t in enumerate(names):
+            for j, v in enumerate(value.elts):
+                if j > i and any(isinstance(x, ast.Name) and x.id == t for x in ast.walk(v)) and not (isinstance(v, ast.Name) and v.id == names[j]):
+                    safe = False
+        if safe:
+            out = []
+            for t, v in zip(names, value.elts):
+                if isinstance(v, ast.Name) and v.id == t:
+                    continue
+                out.append(ast.copy_location(ast.Assign(targets=[ast.Name(id=t, ctx=ast.Store())], value=v, lineno=getattr(loc, "lineno", 1)), loc))
+            return out or [ast.copy_location(ast.Pass(), loc)]
+    return [ast.copy_location(ast.Assign(targets=[_tgt(target)], value=value, lineno=getattr(loc, "lineno", 1)), loc)]
+
+
+def _replace_returns(stmts: list, target, loc) -> list:
     """`return e` -> `target = e; break` (or `e; break` / `break`)"""
     out = []
     for st in stmts:
         if isinstance(st, ast.Return):
             if target is not None:
                 v = st.value if st.value is not None else ast.Constant(value=None)
-                out.append(ast.copy_location(ast.Assign(targets=[ast.Name(id=target, ctx=ast.Store())], value=v, lineno=st.lineno), st))
+                out.extend(_assign(target, v, st))
             elif st.value is not None and not isinstance(st.value, (ast.Constant, ast.Name)):
                 out.append(ast.copy_location(ast.Expr(value=st.value), st))
             out.append(ast.copy_location(ast.Break(), st))
@@ -261,6 +297,11 @@ def _expand_stmt(model, caller: FuncInfo, st, inventory) -> Optional[list]:
         call, mode = st.value, "tail"
     elif isinstance(st, ast.Assign) and len(st.targets) == 1 and isinstance(st.targets[0], ast.Name) and isinstance(st.value, ast.Call):
         call, mode, target = st.value, "assign", st.targets[0].id
+    elif isinstance(st, ast.Assign) and len(st.targets) == 1 and isinstance(st.targets[0], (ast.Tuple, ast.List)) and isinstance(st.value, ast.Call) \
+            and all(isinstance(e, ast.Name) for e in st.targets[0].elts):
+        call, mode, target = st.value, "assign", st.targets[0]
+    elif isinstance(st, ast.Assign) and len(st.targets) == 1 and isinstance(st.targets[0], ast.Attribute) and _simple(st.targets[0].value) and isinstance(st.value, ast.Call):
+        call, mode, target = st.value, "assign", st.targets[0]  # `obj.attr = H(...)`
     elif isinstance(st, ast.AnnAssign) and isinstance(st.target, ast.Name) and isinstance(st.value, ast.Call):
         call, mode, target = st.value, "assign", st.target.id
     elif isinstance(st, ast.Expr) and isinstance(st.value, ast.Call):
@@ -288,7 +329,7 @@ def _expand_stmt(model, caller: FuncInfo, st, inventory) -> Optional[list]:
         out = prologue + (body[:-1] if single_tail else body)
         if target is not None:
             v = rets[0].value if (single_tail and rets[0].value is not None) else ast.Constant(value=None)
-            out.append(ast.copy_location(ast.Assign(targets=[ast.Name(id=target, ctx=ast.Store())], value=v, lineno=st.lineno), st))
+            out.extend(_assign(target, v, st))
         elif single_tail and rets[0].value is not None and not isinstance(rets[0].value, (ast.Constant, ast.Name)):
             out.append(ast.copy_location(ast.Expr(value=rets[0].value), st))
         return out or [ast.copy_location(ast.Pass(), st)]
@@ -298,7 +339,7 @@ def _expand_stmt(model, caller: FuncInfo, st, inventory) -> Optional[list]:
     inner = _replace_returns(body, target, st)
     if falls:
         if target is not None:
-            inner.append(ast.copy_location(ast.Assign(targets=[ast.Name(id=target, ctx=ast.Store())], value=ast.Constant(value=None), lineno=st.lineno), st))
+            inner.append(ast.copy_location(ast.Assign(targets=[_tgt(target)], value=ast.Constant(value=None), lineno=st.lineno), st))
         inner.append(ast.copy_location(ast.Break(), st))
     loop = ast.copy_location(ast.While(test=ast.Constant(value=True), body=inner, orelse=[]), st)
     return prologue + [loop]
